@@ -115,6 +115,14 @@ def gen(chk):
             if ':' not in b and '_' not in b:
                 b += ':'
         pairs.append([as_variants(rng, a), as_variants(rng, b)])
+    # HPO-shaped ids and what a normalising id class would take for them: parsed, and compared with the plain spelling
+    import gen_graph as G
+    for base_id in ['HP:0001250', 'HP:0000001', 'MONDO:0000001', 'HP:0123456', 'OMIM:100000', 'HP:007']:
+        for x in [base_id] + G.lookalikes(base_id):
+            parse.append(['curie', x])
+            pairs.append([['curie', base_id], ['curie', x]])
+            pairs.append([['curie', x], ['simple', base_id, base_id.index(':')]])
+            pairs.append([['default', x, x.index(':')], ['curie', base_id.replace(':', '_', 1)]])
     # sorting / bisect
     pool_small = ['HP:1', 'HP_1', 'HP:10', 'HP:9', 'HP:010', 'MP:1', 'owl:Thing', 'HP:', ':1', '_', 'HP_2:3', 'H:P1',
                   'hp:1', 'HPé:1', 'HP:é', 'HP:0000001', 'HP:0000118', 'A_B', 'A:B', 'A_:B', 'A__B']
